@@ -184,7 +184,7 @@ def evaluate(ctx, deep):
         N = 2 ** n
         if n <= 4 or (deep and n == 5):
             targets = list(range(N))
-            reps = 2 if n <= 4 else 1
+            reps = 2 if (deep and n <= 4) else 1
         else:   # quick n = 5, deep n = 6: boundary targets and some random ones
             targets = sorted(set([0, 1, N // 2 - 1, N // 2, N - 2, N - 1] + [int(x) for x in rng.integers(0, N, 20 if deep else 4)]))
             reps = 1
